@@ -10,6 +10,11 @@ Model/C03_Relations.v is evaluated on the same inputs INSIDE Coq, one goal per r
 `interval` tactic (closed forms: 1e-9 relative; integer counts: exactly, unless the real solution is within the
 conditioning of binary64 of an integer - boundary rule of DESIGN 2.4; brentq outputs: residual of the defining
 equation <= 1e-6).
+Tie (N, source): harness/props/C03_translate.py translates relations.py of the working tree (python ast -> Gallina,
+fail closed: any syntax node outside its fragment is a GenError) into coq/Gen/C03/Source.v on every run, and
+Proofs/C03_SourceEq.v - compiled on every run - proves that every translated function equals the model's function for
+ALL arguments (the rejected ones included).  The sampled correspondence above therefore no longer validates the hand
+model against the code (that is a theorem now); it validates the translator's reading of python/numpy float semantics.
 Direct oracle (independent of Coq): from (count, total_expansion) rebuild blockMesh's progression and test the
 law of the property statement; also used as the search engine.
 """
@@ -20,6 +25,7 @@ from decimal import Decimal, getcontext
 
 import core
 from core import GenError, CorrResult, Prop
+from props import C03_translate
 
 getcontext().prec = 60
 
@@ -919,14 +925,22 @@ class C03(Prop):
     title = "Cell count and expansion ratio obey the geometric-progression law"
     prebuilt = ["Base/Vec3.v", "Model/C03_Relations.v", "Proofs/C03_GeomSeries.v", "Proofs/C03_Relations.v",
                 "Proofs/C03_Plans.v", "Proofs/C03_Invert.v", "Proofs/C03_InvertPlans.v", "Proofs/C03_Corr.v"]
-    gen_dependent_files = ["Gen/C03/RelTable.v"]
+    gen_dependent_files = ["Gen/C03/RelTable.v", "Gen/C03/Source.v", "Proofs/C03_SourceEq.v"]
     property_files = ["Properties/C03.v"]
     trusted = [
         "tabulation: ChopRelation.get_possible_combinations() (names and iteration order) and constants.TOL",
         "scipy.optimize.brentq is an oracle record in the model; brentq_sound (the returned value solves the "
         "defining equation) is a hypothesis of the theorems and a residual goal (<= 1e-6) of every correspondence case",
-        "the correspondence of the real-valued model is sampled (generated inputs incl. branch and integer "
-        "neighbourhoods), each case decided inside Coq by the interval tactic on exact dyadic literals",
+        "the C03 AST translator harness/props/C03_translate.py (relations.py -> Gen/C03/Source.v; Proofs/C03_SourceEq.v "
+        "proves source = model for all arguments on every run).  Its fragment: " + C03_translate.FRAGMENT + ".  Its "
+        "reading of python/numpy: floats are reals; the parameter `count` is an integer; a / b raises when b = 0; "
+        "np.log(x) with x <= 0 (nan / -inf) ends in an exception (checked: such values only reach int() / np.isnan); "
+        "int() truncates; x ** y with a real exponent is exp(y ln x), exact for x > 0 only (the property quantifies over "
+        "positive ratios); _validate_count is read through its condition string and probed against that reading on a "
+        "grid; the functions ChopRelation calls are checked to be the parsed ones (file, name, line)",
+        "the sampled real-valued correspondence (generated inputs incl. branch and integer neighbourhoods, each case "
+        "decided inside Coq by the interval tactic on exact dyadic literals) validates this reading of binary64 / numpy "
+        "semantics - no longer the hand model, which is proved equal to the translated source",
         "harness-side hints (Decimal evaluation of the real solution, own bisection for G(x,E)=L/s) only select "
         "which goal is stated; every stated goal is checked by Coq",
     ]
@@ -958,11 +972,23 @@ class C03(Prop):
         o.append("Definition TOL : R := %s." % R(tol))
         ctx.write_gen("RelTable", "\n".join(o) + "\n")
         self._table, self._tol = table, tol
+        # the source itself: relations.py -> Gallina (fail closed), proved equal to the model by Proofs/C03_SourceEq.v
+        text, translated, tr = C03_translate.translate()
+        rel = _mods()[0]
+        C03_translate.tie_to_runtime(tr, impl_functions(), rel)
+        if sorted(k for (_n, _c, _b, k) in translated) != sorted(table):
+            raise GenError("the translated get_* functions %r are not the relations of the table %r" % (
+                sorted(k for (_n, _c, _b, k) in translated), sorted(table)))
+        ctx.write_gen("Source", text)
+        ctx.log("S1: relations.py translated: %d relations (%d with brentq), %d helpers" % (
+            len(translated), sum(1 for t in translated if t[2]), len(tr.helpers)))
 
     # ---- S3
     def correspond(self, ctx):
         res = CorrResult()
-        res.rule = ("per relation call: implementation output (exact dyadic literal) vs Model/C03_Relations.v evaluated in "
+        res.rule = ("[the model is proved equal to the translated source (Proofs/C03_SourceEq.v); these samples validate the "
+                    "translator's reading of float/numpy semantics] "
+                    "per relation call: implementation output (exact dyadic literal) vs Model/C03_Relations.v evaluated in "
                     "Coq by interval (closed forms 1e-9 rel; counts exact, or within the binary64 conditioning of an "
                     "integer = boundary; brentq outputs by the residual of the defining equation, 1e-6; raise <-> None); "
                     "plans: the three relation calls the tabulated closure makes, on the implementation's own "
